@@ -441,15 +441,16 @@ def python_harness(seed):
                     continue
                 pos = o.__dict__[v["name"]]
                 if v["fmt"] == "x":
-                    val = [0.29, 2.5, -7.00001, 1234.75, -0.125, 0.0][k % 6]
-                    setattr(o, v["name"], val)
+                    for val in (2.5, -7.00001, 1234.75, -0.125, 0.0, -1.3,
+                                -0.29, 0.29):
+                        setattr(o, v["name"], val)
+                        back = getattr(o, v["name"])
+                        E.prove(abs(back - val) < 1e-9,
+                                f"a decimal written to an x variable reads "
+                                f"back as the same decimal ({val} -> {back})")
                     enc = round(val * 100000)
                     for i in range(8):
                         expect[pos + i] = (enc >> (8 * i)) & 0xff
-                    back = getattr(o, v["name"])
-                    E.prove(abs(back - val) < 1e-9,
-                            f"a decimal written to an x variable reads back "
-                            f"as the same decimal ({val} -> {back})")
                     continue
                 val = fresh(f"w{k}", v["fmt"])
                 setattr(o, v["name"], val)
@@ -546,7 +547,8 @@ def main(tier, replay_file=None):
                                  "declared again in the derived class",
                     per_set="whole map contents and all written values "
                             "symbolic (Q below 2^63 on the Python side; x "
-                            "from six decimals incl. 0.29)",
+                            "from eight decimals incl. 0.29 and negative "
+                            "ones)",
                     outside="multi-element formats on the program side (the "
                             "generator has no such access); more than "
                             f"{CPUS} CPUs"),
